@@ -196,6 +196,20 @@ func (p *phaser) Phase(orfs, seqs SeqBag) (phased chan PhasedSequence, err error
 
 	// All threads consuming sequences
 	var wg sync.WaitGroup
+	// failed is set by the first thread that encounters an error (reported
+	// through the PhasedSequence.Err), to stop the other threads
+	var failedmux sync.Mutex
+	failed := false
+	setFailed := func() {
+		failedmux.Lock()
+		failed = true
+		failedmux.Unlock()
+	}
+	hasFailed := func() bool {
+		failedmux.Lock()
+		defer failedmux.Unlock()
+		return failed
+	}
 	for cpu := 0; cpu < p.cpus; cpu++ {
 		wg.Add(1)
 		go func() {
@@ -211,16 +225,16 @@ func (p *phaser) Phase(orfs, seqs SeqBag) (phased chan PhasedSequence, err error
 				}
 
 				if ph.Err != nil {
-					err = inerr
+					setFailed()
 					phased <- ph
 					return
 				} else if inerr != nil {
-					err = inerr
+					setFailed()
 					ph.Err = inerr
 					phased <- ph
 					return
 				}
-				if err != nil {
+				if hasFailed() {
 					return
 				}
 				phased <- ph
@@ -238,6 +252,17 @@ func (p *phaser) Phase(orfs, seqs SeqBag) (phased chan PhasedSequence, err error
 	}()
 
 	return
+}
+
+// noHitPhasedSequence is the result for a sequence that aligns with
+// no reference: it is flagged as removed and keeps its name
+func noHitPhasedSequence(seq Sequence) PhasedSequence {
+	return PhasedSequence{
+		Removed:  true,
+		NtSeq:    seq.Clone(),
+		CodonSeq: NewSequence(seq.Name(), []uint8{}, seq.Comment()),
+		AaSeq:    NewSequence(seq.Name(), []uint8{}, seq.Comment()),
+	}
 }
 
 func (p *phaser) alignAgainstRefsAA(seq Sequence, orfsaa []Sequence) (ph PhasedSequence, err error) {
@@ -312,6 +337,13 @@ func (p *phaser) alignAgainstRefsAA(seq Sequence, orfsaa []Sequence) (ph PhasedS
 				}
 			}
 		}
+	}
+
+	// No alignment with a positive score against any reference:
+	// the sequence is discarded
+	if bestseq == nil {
+		ph = noHitPhasedSequence(seq)
+		return
 	}
 
 	ph = PhasedSequence{
@@ -404,6 +436,13 @@ func (p *phaser) alignAgainstRefsNT(seq Sequence, orfs []Sequence) (ph PhasedSeq
 				}
 			}
 		}
+	}
+
+	// No alignment with a positive score against any reference:
+	// the sequence is discarded
+	if bestseq == nil {
+		ph = noHitPhasedSequence(seq)
+		return
 	}
 
 	phase = (3 - nbgapstart%3) % 3
